@@ -88,7 +88,7 @@ func judgeProve(seed, alpha []byte, o *fw.Obs) {
 	var privIn, pubIn, alphaIn, piIn []byte
 	if !o.Try("Prove/Verify/ProofToHash", func() {
 		priv = vrf.NewKeyFromSeed(fw.Spare(seed, 96))
-		privIn, alphaIn = fw.Spare(priv, 160), fw.Spare(alpha, 160)
+		privIn, alphaIn = fw.Spare(priv, 160), fw.NilIfEmpty(fw.Spare(alpha, 160), seed[0])
 		pr := vrf.Prove(ed25519.PrivateKey(privIn), alphaIn)
 		pi = pr.Bytes()
 		mb, err3 = pr.MarshalBinary()
